@@ -384,22 +384,24 @@ def G.dependsDirect (g : G) (x y : Nat) : Except Err Bool := do
   let s ← g.edgesAt i
   pure (decide (j ∈ s))
 
-/-- `depends(x, y, recurse=True)`; the code's loop does not terminate on a cycle it cannot leave:
-`fuel` exhaustion is reported as `recursion` (never generated by the harness on cyclic graphs) -/
-def dependsLoop (g : G) (j : Nat) : Nat → List Nat → Except Err Bool
-  | 0, _ => .error .recursion
-  | fuel + 1, deps1 =>
+/-- `depends(x, y, recurse=True)`: breadth-first waves of positions, each position visited once (`seen`); the loop of
+the code has no budget, `DG.dependsRec_total` shows that `size + 1` rounds are always enough (the pinned loop had no
+`seen` set and never ended on a cycle that does not lead to `y`: defect A32) -/
+def dependsLoop (g : G) (j : Nat) : Nat → List Nat → List Nat → Except Err Bool
+  | 0, _, _ => .error .recursion
+  | fuel + 1, seen, deps1 =>
     if deps1.isEmpty then .ok false
     else if j ∈ deps1 then .ok true
     else do
       let nxt ← deps1.foldlM (fun acc i => do let s ← g.edgesAt i; pure (acc ++ s)) []
-      dependsLoop g j fuel nxt
+      let seen := seen ++ deps1
+      dependsLoop g j fuel seen (nxt.eraseDups.filter (· ∉ seen))
 
 def G.dependsRec (g : G) (x y : Nat) : Except Err Bool := do
   let i ← g.nodes.indexOf x
   let j ← g.nodes.indexOf y
   let s ← g.edgesAt i
-  dependsLoop g j (g.size + 1) s
+  dependsLoop g j (g.size + 1) [] s.eraseDups
 
 /-- `g <= h` for graphs of plain nodes -/
 def G.le (g h : G) : Except Err Bool := do
